@@ -6,6 +6,7 @@ import (
 	"fmt"
 	"io"
 	"strconv"
+	"strings"
 	"sync"
 	"sync/atomic"
 	"time"
@@ -569,6 +570,14 @@ func c15Received(r *fw.R, d c15Desc) {
 		}
 		if len(gotP) > len(want) {
 			r.Violate("C15/extra-pong", fmt.Sprintf("%s: %d Pongs for %d Pings", what, len(gotP), len(want)), "")
+		}
+		// a Pong that a conforming receiver has to reject (extended length form on a control frame, fragmented,
+		// reserved bits ...) is no answer
+		for _, v := range peer.Conf.Violations {
+			if strings.Contains(v, "Pong") || strings.Contains(v, "control") || strings.Contains(v, "length encoding") || strings.Contains(v, "op=a") {
+				r.Violate("C15/pong-frame-malformed/"+vioClass(v), fmt.Sprintf("%s: %s", what, v), "frames: "+tail(string(peer.Conf.FrameLog), 60))
+				break
+			}
 		}
 		r.Count("received_pings_answered", int64(len(want)))
 	})
